@@ -459,3 +459,239 @@ Proof.
     subst d. split; [intros e He; discriminate|].
     intros dbg' asz aa off rest. rewrite ?andb_false_r. cbn [app]. rewrite rp_x2d. destruct aa; reflexivity.
 Qed.
+
+(* ------------------------------------------------------------------ *)
+(* B. instruction areas: CfiRun.decode on the written bytes              *)
+(* ------------------------------------------------------------------ *)
+
+Import CfaSpec.
+
+(* the bytes of a section area (starting at section offset base) that a reference designates *)
+Definition bytes_at (base : N) (area : list byte) (o n : N) : list byte :=
+  firstn (N.to_nat n) (skipn (N.to_nat (o - base)) area).
+
+(* a reader instruction that is the reader's form of a decoded instruction: same operands, expression
+   operands as references to bytes of the area that hold the blob *)
+Definition imatch (base : N) (area : list byte) (d : dinsn) (i : insn) : Prop :=
+  exists off total, i = to_insn off total d /\
+    forall e, expr_of d = Some e ->
+      base <= off + total - len e /\ bytes_at base area (off + total - len e) (len e) = e.
+
+Lemma rdec_is_dec dbg dp off bs :
+  CfiRun.decode dbg dp off bs = CfiRunProofs.dec dbg dp {| CfiRun.it_off := off; CfiRun.it_bytes := bs |}.
+Proof. reflexivity. Qed.
+
+Lemma rdec_nil dbg dp off : CfiRun.decode dbg dp off [] = [].
+Proof. reflexivity. Qed.
+
+Lemma rdec_cons dbg dp off a rest i :
+  a <> [] ->
+  CfiRun.parse_insn dbg (CfiRun.d_be dp) (CfiRun.d_asize dp) (CfiRun.d_aarch64 dp) off (a ++ rest) = Ok (i, rest) ->
+  CfiRun.decode dbg dp off (a ++ rest) = It i :: CfiRun.decode dbg dp (off + len a) rest.
+Proof.
+  intros Hne Hp. rewrite !rdec_is_dec. rewrite CfiRunProofs.dec_unfold.
+  unfold CfiRun.iter_next. cbn [CfiRun.it_bytes CfiRun.it_off].
+  destruct (a ++ rest) as [|b t] eqn:E; [destruct a; [congruence|discriminate]|].
+  rewrite <- E in *. rewrite Hp. do 3 f_equal.
+  unfold CfiRun.consumed, len. rewrite app_length. lia.
+Qed.
+
+Lemma rdec_bad dbg dp off a rest e :
+  a <> [] ->
+  CfiRun.parse_insn dbg (CfiRun.d_be dp) (CfiRun.d_asize dp) (CfiRun.d_aarch64 dp) off (a ++ rest) = Err e ->
+  CfiRun.decode dbg dp off (a ++ rest) = [Bad e].
+Proof.
+  intros Hne Hp. rewrite rdec_is_dec, CfiRunProofs.dec_unfold.
+  unfold CfiRun.iter_next. cbn [CfiRun.it_bytes CfiRun.it_off].
+  destruct (a ++ rest) as [|b t] eqn:E; [destruct a; [congruence|discriminate]|].
+  rewrite <- E in *. rewrite Hp. reflexivity.
+Qed.
+
+(* what follows an area is decoded after it, at the right offset *)
+Definition rreads (dbg : bool) (dp : CfiRun.dparams) (off : N) (bs : list byte) (is : list insn) : Prop :=
+  forall rest, CfiRun.decode dbg dp off (bs ++ rest) = map It is ++ CfiRun.decode dbg dp (off + len bs) rest.
+
+Lemma rreads_nil dbg dp off : rreads dbg dp off [] [].
+Proof. intros rest. cbn [app map]. change (len []) with 0. now rewrite N.add_0_r. Qed.
+
+Lemma rreads_cons dbg dp off a b i is :
+  a <> [] ->
+  (forall rest, CfiRun.parse_insn dbg (CfiRun.d_be dp) (CfiRun.d_asize dp) (CfiRun.d_aarch64 dp) off (a ++ rest)
+                = Ok (i, rest)) ->
+  rreads dbg dp (off + len a) b is -> rreads dbg dp off (a ++ b) (i :: is).
+Proof.
+  intros Hne Ha Hb rest. rewrite <- app_assoc. rewrite (rdec_cons dbg dp off a (b ++ rest) i Hne (Ha _)). rewrite Hb.
+  cbn [map app]. rewrite len_app, N.add_assoc. reflexivity.
+Qed.
+
+Lemma bytes_at_here base (pre p e rest : list byte) :
+  bytes_at base (pre ++ (p ++ e) ++ rest) (base + len pre + len (p ++ e) - len e) (len e) = e.
+Proof.
+  unfold bytes_at. rewrite len_app.
+  replace (N.to_nat (base + len pre + (len p + len e) - len e - base)) with (length (pre ++ p))
+    by (rewrite app_length; unfold len; lia).
+  replace (pre ++ (p ++ e) ++ rest) with ((pre ++ p) ++ e ++ rest) by (repeat rewrite <- app_assoc; reflexivity).
+  rewrite skipn_app_exact. unfold len. rewrite Nat2N.id. apply firstn_app_exact.
+Qed.
+
+(* no DW_CFA_AARCH64_negate_ra_state unless the reader's vendor is AArch64 *)
+Definition vendor_ok (aa : bool) (i : cfi) : bool :=
+  aa || negb (match i with NegateRaState => true | _ => false end).
+
+Definition dp_of (be aa : bool) (asz : N) : CfiRun.dparams :=
+  {| CfiRun.d_be := be; CfiRun.d_asize := asz; CfiRun.d_aarch64 := aa |}.
+
+(* area-independence of imatch: the reference only looks at the bytes of this instruction *)
+Lemma imatch_insn base (pre a rest : list byte) d off_ok :
+  off_ok = base + len pre ->
+  (forall e, expr_of d = Some e -> exists p, a = p ++ e) ->
+  imatch base (pre ++ a ++ rest) d (to_insn off_ok (len a) d).
+Proof.
+  intros -> Hex. exists (base + len pre), (len a). split; [reflexivity|].
+  intros e He. destruct (Hex e He) as (p & ->). split.
+  - rewrite len_app. lia.
+  - apply bytes_at_here.
+Qed.
+
+Lemma write_insns_rread dbg dbg' be aa asz (caf : N) (daf : Z) : forall (l : list cfi) bs base pre rest,
+  forallb cfi_wf l = true -> is_i8 daf = true -> forallb (vendor_ok aa) l = true ->
+  write_insns dbg daf l = Ok bs ->
+  exists ds is,
+    decodes_to be bs ds /\ map (sem caf daf) ds = map MInsn l /\
+    rreads dbg' (dp_of be aa asz) (base + len pre) bs is /\
+    Forall2 (imatch base (pre ++ bs ++ rest)) ds is.
+Proof.
+  induction l as [|i r IH]; intros bs base pre rest Hwf Hdaf Hv H.
+  - cbn [write_insns] in H. injection H as <-. exists [], []. split; [apply decodes_to_nil|].
+    split; [reflexivity|]. split; [apply rreads_nil|constructor].
+  - cbn [write_insns] in H. cbn [forallb] in Hwf, Hv.
+    apply andb_true_iff in Hwf. destruct Hwf as [Hi Hr]. apply andb_true_iff in Hv. destruct Hv as [Hvi Hvr].
+    destruct (write_insn dbg daf i) as [a| | |] eqn:Ea; try discriminate. cbn [bind] in H.
+    destruct (write_insns dbg daf r) as [b| | |] eqn:Eb; try discriminate. cbn [bind] in H. injection H as <-.
+    destruct (insn_read_by_reader_lem dbg be caf daf i a Hi Hdaf Ea) as (d & Hd & Hs & Hex & Hrd).
+    destruct (write_insn_decodes dbg be caf daf i a Hi Hdaf Ea) as (Hne & _).
+    destruct (IH b base (pre ++ a) rest Hr Hdaf Hvr eq_refl) as (ds & is & Hds & Hm & Hrr & Hf).
+    exists (d :: ds), (to_insn (base + len pre) (len a) d :: is).
+    split; [apply decodes_to_cons; assumption|]. split; [cbn [map]; now rewrite Hs, Hm|]. split.
+    + apply rreads_cons; [exact Hne| |].
+      * intros rest0. cbn [dp_of CfiRun.d_be CfiRun.d_asize CfiRun.d_aarch64]. rewrite Hrd.
+        unfold vendor_ok in Hvi. destruct aa; [reflexivity|].
+        destruct i; cbn in Hvi |- *; try reflexivity. discriminate.
+      * rewrite len_app, N.add_assoc in Hrr. exact Hrr.
+    + constructor.
+      * rewrite <- app_assoc. apply imatch_insn; [reflexivity|exact Hex].
+      * replace (pre ++ (a ++ b) ++ rest) with ((pre ++ a) ++ b ++ rest) by (repeat rewrite <- app_assoc; reflexivity).
+        exact Hf.
+Qed.
+
+(* fixed-width operands of the long advance forms *)
+Lemma take_app_exact (l r : list byte) : take (length l) (l ++ r) = Some (l, r).
+Proof. induction l as [|x l IH]; cbn [length take app]; [reflexivity|]. now rewrite IH. Qed.
+
+Lemma read_un_enc n be v rest : v < 256 ^ N.of_nat n ->
+  read_un n be (enc_num n be v ++ rest) = Ok (v, rest).
+Proof.
+  intros Hv. unfold read_un, read_bytes.
+  pose proof (enc_num_length n be v) as HL. rewrite <- HL at 1. rewrite take_app_exact. cbn [bind].
+  f_equal. f_equal.
+  pose proof (num_enc_num n be v) as Hn. unfold num in Hn. rewrite N.mod_small in Hn by exact Hv.
+  destruct be; exact Hn.
+Qed.
+
+Lemma rp_adv_enc dbg be asz aa off delta rest :
+  delta < 4294967296 ->
+  CfiRun.parse_insn dbg be asz aa off (adv_enc be delta ++ rest) = Ok (IAdvanceLoc delta, rest).
+Proof.
+  intros Hd. unfold adv_enc.
+  destruct (delta <? 64) eqn:E1.
+  - cbn [app]. rewrite (rp_hi dbg be asz aa off _ rest 64 delta) by (auto; try lia; apply byte_small; lia). reflexivity.
+  - destruct (delta <? 256) eqn:E2.
+    + cbn [app]. rewrite rp_x02. cbn [read_u8 bind]. rewrite byte_small by lia. reflexivity.
+    + destruct (delta <? 65536) eqn:E3.
+      * cbn [app]. rewrite rp_x03. unfold read_u16. rewrite read_un_enc by (change (256 ^ N.of_nat 2) with 65536; lia).
+        reflexivity.
+      * cbn [app]. rewrite rp_x04. unfold read_u32. rewrite read_un_enc by (change (256 ^ N.of_nat 4) with 4294967296; lia).
+        reflexivity.
+Qed.
+
+Lemma write_fde_insns_rread dbg dbg' be aa asz (caf : N) (daf : Z) : forall (l : list (N * cfi)) prev bs base pre rest,
+  forallb fde_insn_wf l = true -> is_u8 caf = true -> is_i8 daf = true -> is_u32 prev = true ->
+  forallb (fun p => vendor_ok aa (snd p)) l = true ->
+  write_fde_insns dbg be caf daf prev l = Ok bs ->
+  exists ds is,
+    decodes_to be bs ds /\ locate prev (map (sem caf daf) ds) = l /\
+    rreads dbg' (dp_of be aa asz) (base + len pre) bs is /\
+    Forall2 (imatch base (pre ++ bs ++ rest)) ds is.
+Proof.
+  induction l as [|[off i] r IH]; intros prev bs base pre rest Hwf Hcaf Hdaf Hprev Hv H.
+  - cbn [write_fde_insns] in H. injection H as <-. exists [], []. split; [apply decodes_to_nil|].
+    split; [reflexivity|]. split; [apply rreads_nil|constructor].
+  - cbn [write_fde_insns] in H. cbn [forallb] in Hwf, Hv.
+    apply andb_true_iff in Hwf. destruct Hwf as [Hi Hr]. apply andb_true_iff in Hv. destruct Hv as [Hvi Hvr].
+    cbn [snd] in Hvi.
+    unfold fde_insn_wf in Hi. cbn [fst snd] in Hi. apply andb_true_iff in Hi. destruct Hi as [Hoff Hi].
+    destruct (write_advance_loc dbg be caf prev off) as [a| | |] eqn:Ea; try discriminate. cbn [bind] in H.
+    destruct (write_insn dbg daf i) as [b| | |] eqn:Eb; try discriminate. cbn [bind] in H.
+    destruct (write_fde_insns dbg be caf daf off r) as [c| | |] eqn:Ec; try discriminate. cbn [bind] in H.
+    injection H as <-.
+    destruct (insn_read_by_reader_lem dbg be caf daf i b Hi Hdaf Eb) as (d & Hd & Hs & Hex & Hrd).
+    destruct (write_insn_decodes dbg be caf daf i b Hi Hdaf Eb) as (Hne & _).
+    assert (Hrdb : forall rest0, CfiRun.parse_insn dbg' be asz aa (base + len (pre ++ a)) (b ++ rest0)
+                                 = Ok (to_insn (base + len (pre ++ a)) (len b) d, rest0)).
+    { intros rest0. rewrite Hrd. unfold vendor_ok in Hvi. destruct aa; [reflexivity|].
+      destruct i; cbn in Hvi |- *; try reflexivity. discriminate. }
+    destruct (IH off c base (pre ++ a ++ b) rest Hr Hcaf Hdaf Hoff Hvr Ec) as (ds & is & Hds & Hm & Hrr & Hf).
+    assert (Hf' : Forall2 (imatch base (pre ++ (a ++ b ++ c) ++ rest)) ds is).
+    { replace (pre ++ (a ++ b ++ c) ++ rest) with ((pre ++ a ++ b) ++ c ++ rest)
+        by (repeat rewrite <- app_assoc; reflexivity). exact Hf. }
+    assert (Hmb : imatch base (pre ++ (a ++ b ++ c) ++ rest) d (to_insn (base + len (pre ++ a)) (len b) d)).
+    { replace (pre ++ (a ++ b ++ c) ++ rest) with ((pre ++ a) ++ b ++ (c ++ rest))
+        by (repeat rewrite <- app_assoc; reflexivity).
+      apply imatch_insn; [reflexivity|exact Hex]. }
+    assert (Hrbc : rreads dbg' (dp_of be aa asz) (base + len (pre ++ a)) (b ++ c)
+                          (to_insn (base + len (pre ++ a)) (len b) d :: is)).
+    { apply rreads_cons; [exact Hne|exact Hrdb|].
+      replace (base + len (pre ++ a) + len b) with (base + len (pre ++ a ++ b)) by (rewrite !len_app; lia).
+      exact Hrr. }
+    destruct (write_advance_loc_ok dbg be caf prev off a Hcaf Hprev Hoff Ea)
+      as [[-> ->]|(delta & Hlt & Hmul & Hdl & ->)].
+    + rewrite app_nil_r in Hrbc, Hmb.
+      exists (d :: ds), (to_insn (base + len pre) (len b) d :: is).
+      split; [cbn [app]; apply decodes_to_cons; assumption|].
+      split; [cbn [map locate]; rewrite Hs; cbn [locate]; now rewrite Hm|].
+      split; [exact Hrbc|constructor; assumption].
+    + rewrite len_app, N.add_assoc in Hrbc, Hmb.
+      exists (DAdvance delta :: d :: ds), (IAdvanceLoc delta :: to_insn (base + len pre + len (adv_enc be delta)) (len b) d :: is).
+      split.
+      { apply decodes_to_cons; [apply adv_enc_nonempty| |].
+        - intros rest0. apply decode1_adv_enc. exact Hdl.
+        - apply decodes_to_cons; assumption. }
+      split.
+      { cbn [map sem locate]. rewrite Hs. cbn [locate]. replace (prev + delta * caf) with off by lia. now rewrite Hm. }
+      split.
+      { apply rreads_cons; [apply adv_enc_nonempty| |].
+        - intros rest0. apply rp_adv_enc. exact Hdl.
+        - exact Hrbc. }
+      constructor; [|constructor; assumption].
+      exists 0, 0. split; [reflexivity|]. intros e He. discriminate.
+Qed.
+
+(* nop padding *)
+Lemma nops_rread dbg dp : forall pad off, all_nop pad = true ->
+  rreads dbg dp off pad (repeat INop (length pad)).
+Proof.
+  induction pad as [|b r IH]; intros off H; [apply rreads_nil|].
+  cbn [all_nop forallb] in H. apply andb_true_iff in H. destruct H as [Hb Hr].
+  assert (b = x00). { apply b2n_inj. change (b2n x00) with 0. lia. } subst b.
+  change (x00 :: r) with ([x00] ++ r). cbn [length repeat].
+  apply rreads_cons; [discriminate|intros rest; apply rp_x00|]. apply IH. exact Hr.
+Qed.
+
+Lemma rreads_app dbg dp off a b ia ib :
+  rreads dbg dp off a ia -> rreads dbg dp (off + len a) b ib -> rreads dbg dp off (a ++ b) (ia ++ ib).
+Proof.
+  intros Ha Hb rest. rewrite <- app_assoc, Ha, Hb, map_app, <- app_assoc, len_app, N.add_assoc. reflexivity.
+Qed.
+
+Lemma rreads_all dbg dp off bs is : rreads dbg dp off bs is -> CfiRun.decode dbg dp off bs = map It is.
+Proof. intros H. specialize (H []). rewrite app_nil_r, rdec_nil, app_nil_r in H. exact H. Qed.
